@@ -373,6 +373,16 @@ def main(argv=None):
             except Exception as e:  # noqa  - a broken second engine must not hide what the first one found
                 finalize_error = f"{type(e).__name__}: {str(e)[:300]}"
                 extra = {"second_engine_error": finalize_error}
+        # ---- coverage-guided secondary engine (vp/fuzz.py): same strategy, same oracle, libFuzzer feedback ---------
+        fz = getattr(prop, "FUZZ", {}).get(ns.tier)
+        if fz and os.environ.get("VERIF_NO_FUZZ", "") != "1":
+            from . import fuzz
+            try:
+                fviol, fcov = fuzz.drive(prop, ns.tier, seed, **fz)
+                stats.violations.extend(fviol)
+            except Exception as e:  # noqa  - an engine that cannot run is inconclusive, never a violation
+                fcov = {"fuzz_engine_error": f"{type(e).__name__}: {str(e)[:300]}"}
+            extra = dict(extra or {}, **fcov)
         # ---- report ------------------------------------------------------------------------------------------
         os.makedirs(os.path.join(core.OUT_DIR, "replays"), exist_ok=True)
         seen = set()
